@@ -9,6 +9,15 @@ package httpcache
 //@ func (*RoundTripper).cacheResponse
 //@   props C10 C11
 //@   ensures headerGet(old(resp.Header), "Vary", hver) != "" ==> cset.n == old(cset.n)
+// C10: "not served after its RFC 7234 freshness lifetime and not stored at all when that lifetime is
+// zero or negative": a response is stored at most once, only when the library has no reason against
+// it, and for no longer than its remaining freshness lifetime (ghost log ccr = CachableResponse;
+// ret1 = end of freshness) - the configured default only when the response names no lifetime. Together
+// with Cache.Set's precondition ttl > 0 a response whose lifetime is over is not stored.
+//@   ensures cset.n <= old(cset.n) + 1
+//@   ensures cset.n > old(cset.n) ==> ccr.n == old(ccr.n) + 1 && ccr.ret2[old(ccr.n)] == nil && len(ccr.ret0[old(ccr.n)]) == 0
+//@   assert at call Set#1: ccr.n == old(ccr.n) + 1 && (unixnano(ccr.ret1[old(ccr.n)]) != zeroTimeNano() ==> callarg4 <= unixnano(ccr.ret1[old(ccr.n)]) - old(clock))
+//@   assert at call Set#1: unixnano(ccr.ret1[old(ccr.n)]) == zeroTimeNano() ==> old(rt.DefaultCacheTTL) != 0 && callarg4 <= old(rt.DefaultCacheTTL)
 
 // C11: "a result is served from cache only for a request for which a fresh evaluation (... rendered
 // payload ..., presented credential) would yield the same result". The key of the HTTP cache covers
